@@ -144,6 +144,8 @@ class Explorer:
         self.solver.set('timeout', solver_timeout_ms)
         self.deadline = deadline
         self.inconclusive = []
+        self.frontier_depth = None     # split mode: stop runs at this many decisions and collect their prefixes
+        self.frontier = []
 
     def run_all(self, harness, on_path=None):
         """harness(ex) runs one path; returns when the worklist is empty."""
@@ -163,12 +165,22 @@ class Explorer:
                 outcome = ('panic', p)
             except Infeasible:
                 outcome = ('infeasible', None)
+            except FrontierStop:
+                outcome = ('infeasible', None)
             except Budget as b:
                 outcome = ('budget', str(b))
                 self.inconclusive.append('step budget: %s' % b)
             except Unsupported as u:
                 outcome = ('unsupported', str(u))
                 self.inconclusive.append('unsupported: %s' % u)
+            except (AttributeError, TypeError, IndexError, KeyError, ValueError, AssertionError, z3.Z3Exception) as e:
+                # a defect of the machinery itself: never a pass, never an alarm
+                import os, traceback
+                if os.environ.get('VERIF_DEBUG'):
+                    raise
+                tb = traceback.extract_tb(e.__traceback__)[-1]
+                outcome = ('unsupported', 'internal %r at %s:%d' % (e, tb.filename.rsplit('/', 1)[-1], tb.lineno))
+                self.inconclusive.append('internal error: %s' % outcome[1])
             if outcome[0] != 'infeasible':
                 self.stats.paths += 1
                 if on_path:
@@ -194,6 +206,10 @@ class Explorer:
         else:
             self.stats.unknown += 1
         return r, m
+
+
+class FrontierStop(Exception):
+    pass
 
 
 class Frame:
@@ -270,12 +286,11 @@ class Executor:
             self.decisions.append(i)
             self.assume(conds[i])
             return i
+        if self.E.frontier_depth is not None and len(self.decisions) >= self.E.frontier_depth:
+            self.E.frontier.append(self.decisions[:])
+            raise FrontierStop()
         feas = []
         for idx, i in enumerate(live):
-            if idx == len(live) - 1 and not feas:
-                # all others infeasible: this one must hold (pc is satisfiable and conds are exhaustive)
-                feas.append(i)
-                break
             r, _ = self.E.check(conds[i])
             if r == z3.sat:
                 feas.append(i)
@@ -613,6 +628,11 @@ class Executor:
         # unit / zero-sized values and function items
         t = text
         fns = self.prog.module.fns
+        if t.startswith('ZeroSized: '):
+            rest = t[11:]
+            if rest.startswith('{closure@'):
+                return Agg(rest, None, [], None, {'decl_ty': rest, 'parent': fr.name if fr else ''})
+            return UNIT
         base = P.strip_generics(t)
         if base in ('std::marker::PhantomData', 'PhantomData') or base.endswith('PhantomData'):
             return UNIT
@@ -871,7 +891,7 @@ class Executor:
         from . import models
         r = models.dispatch(self, c, args, fr, dest)
         if r is NotImplemented:
-            raise Unsupported('no model for callee %s (in %s)' % (c, fr.name))
+            raise Unsupported('no model for callee %s (in %s)' % (c, fr.name if fr else '<model>'))
         return r
 
     def resolve_callee(self, c, args, fr):
@@ -1045,10 +1065,10 @@ def _generic_lasts(t):
 
 
 def clean_callee(c):
+    c = re.sub(r"::<'\w+>", '', c)           # turbofish with only a lifetime
     c = re.sub(r"'(?:\w+) ", '', c)          # "'a " lifetimes in refs
     c = re.sub(r"<'\w+>", '', c)             # lone lifetime generics
     c = re.sub(r"'\w+, ", '', c)
-    c = c.replace("::<'_>", '')
     return c
 
 
@@ -1111,3 +1131,55 @@ def type_tag(v):
     if isinstance(v, VecV):
         return 'Vec'
     return None
+
+
+# ---------------------------------------------------------------------------- parallel exploration
+_PAR = {}
+
+
+def _par_worker(args):
+    key, prefixes, kw = args
+    make = _PAR[key]
+    harness, on_path, res = make()
+    E = Explorer(_PAR[key + ':prog'], Stats(), **kw)
+    E.work = [list(p) for p in prefixes]
+    try:
+        E.run_all(harness, on_path)
+    except Exception as e:
+        E.inconclusive.append('worker failure: %r' % (e,))
+    return res, E.stats.as_dict(), E.stats.functions, E.stats.models_used, E.inconclusive[:5]
+
+
+def parallel_explore(prog, make, depth=6, procs=16, deadline=None, **kw):
+    """make() -> (harness, on_path, res) with res a picklable dict of lists/ints that on_path fills.
+    Returns (merged res, stats dict, functions, models, inconclusive)."""
+    import multiprocessing as mp
+    key = 'k%d' % len(_PAR)
+    _PAR[key] = make
+    _PAR[key + ':prog'] = prog
+    harness, on_path, res = make()
+    E0 = Explorer(prog, Stats(), deadline=deadline, **kw)
+    E0.frontier_depth = depth
+    E0.run_all(harness, on_path)
+    stats = E0.stats.as_dict()
+    functions, models_used, inconclusive = set(E0.stats.functions), set(E0.stats.models_used), list(E0.inconclusive)
+    frontier = E0.frontier
+    if frontier:
+        chunks = [frontier[i::procs * 4] for i in range(procs * 4)]
+        chunks = [c for c in chunks if c]
+        kw2 = dict(kw)
+        kw2['deadline'] = deadline
+        ctx = mp.get_context('fork')
+        with ctx.Pool(min(procs, len(chunks))) as pool:
+            for r, st, fns, mods, inc in pool.imap_unordered(_par_worker, [(key, c, kw2) for c in chunks]):
+                for k, v in r.items():
+                    if isinstance(v, list):
+                        res.setdefault(k, []).extend(v)
+                    elif isinstance(v, (int, float)):
+                        res[k] = res.get(k, 0) + v
+                for k, v in st.items():
+                    stats[k] = stats.get(k, 0) + v
+                functions |= fns
+                models_used |= mods
+                inconclusive += inc
+    return res, stats, functions, models_used, inconclusive
